@@ -321,9 +321,14 @@ impl ValueExtension for Value {
             (Value::Float(a), Value::Float(b)) => a == b,
             (Value::String(a), Value::String(b)) => a.eq(b),
             (Value::Enum(a), Value::Enum(b)) => a.eq(b),
-            (Value::List(a), Value::List(b)) => a.iter().zip(b.iter()).all(|(a, b)| a.compare(b)),
+            (Value::List(a), Value::List(b)) => {
+                a.len() == b.len() && a.iter().zip(b.iter()).all(|(a, b)| a.compare(b))
+            }
             (Value::Object(a), Value::Object(b)) => {
-                a.iter().zip(b.iter()).all(|(a, b)| a.1.compare(b.1))
+                a.len() == b.len()
+                    && a.iter()
+                        .zip(b.iter())
+                        .all(|(a, b)| a.0 == b.0 && a.1.compare(b.1))
             }
             (Value::Variable(a), Value::Variable(b)) => a.eq(b),
             _ => false,
